@@ -142,7 +142,7 @@ void history(vf::Ctx & c)
   Geo ctr{0, 0, 0};
   int anchorChanges = 0, conversionsAfterChange = 0;
   bool sawReset = false, sawAuto = false, sawReanchor = false, antiAnchor = false, sameLatLon = false, sawAliased = false;
-  bool everAnchored = false;
+  bool everAnchored = false, samePlaceAfterReset = false;
   Geo lastAnchor{0, 0, 0};
   for (int k = 0; k < n; ++k) {
     Op op;
@@ -164,6 +164,10 @@ void history(vf::Ctx & c)
           op.g = lastAnchor;
           op.aliased = true;
           sawAliased = true;
+        } else if (op.kind == SET_ANCHOR && !anchored && everAnchored && c.s.flag("re_anchor_where_the_anchor_was_before_reset", 1, 3)) {
+          // reset(), then anchoring again at exactly the previous place (a vehicle restarting where it stands)
+          op.g = lastAnchor;
+          samePlaceAfterReset = true;
         } else if (op.kind == SET_ANCHOR && anchored && c.s.flag("same_place_other_height", 1, 4)) {
           // re-anchor at exactly the same latitude / longitude, only the height changes
           op.g = ctr;
@@ -179,7 +183,10 @@ void history(vf::Ctx & c)
       case CONSTRUCT: constructed = true; anchored = false; everAnchored = false; break;
       case RESET: anchored = false; sawReset = true; break;
       case ENU_GEO:
-        if (!anchored) {op.g = genAnchor(c); ctr = op.g; anchored = true; sawAuto = true; anchorChanges++; everAnchored = true; lastAnchor = op.g;} else {
+        if (!anchored) {
+          if (everAnchored && c.s.flag("re_anchor_where_the_anchor_was_before_reset", 1, 3)) {op.g = lastAnchor; samePlaceAfterReset = true;} else {op.g = genAnchor(c);}
+          ctr = op.g; anchored = true; sawAuto = true; anchorChanges++; everAnchored = true; lastAnchor = op.g;
+        } else {
           op.g = genGeoNear(c, ctr); if (anchorChanges > 1 || sawReset) {conversionsAfterChange++;}
         }
         break;
@@ -206,6 +213,7 @@ void history(vf::Ctx & c)
   if (antiAnchor) {c.label("antimeridian-anchor");}
   if (sameLatLon) {c.label("re-anchor-same-lat-lon-other-height");}
   if (sawAliased) {c.label("setAnchor(own getAnchor() reference)");}
+  if (samePlaceAfterReset) {c.label("re-anchored-at-the-previous-place-after-reset");}
   c.nontrivial(conversionsAfterChange > 0);
   c.commit();
 
